@@ -12,6 +12,10 @@ Open Scope Z_scope.
 Definition fix_k2_applied : bool := false.   (* C11-gql-skip-limit-order.diff *)
 Definition fix_k3_applied : bool := false.   (* C11-return-distinct.diff *)
 Definition fix_k5_applied : bool := false.   (* C11-distinct-chunk.diff *)
+Definition fix_k9_applied : bool := false.   (* C11-aggregate-result-types.diff *)
+(* C11-aggregate-sum-overflow.diff (K10) needs no switch: an overflowing SUM that does not panic is
+   outside the model (floating-point sum) and the harness then emits no correspondence term *)
+Definition planner_type_now (f : aggf) : ltype := if fix_k9_applied then planner_type_fix f else planner_type f.
 Definition drain_distinct_now (cs : list chunk) : list chunk :=
   if fix_k5_applied then drain_distinct_fix cs else drain_distinct cs.
 Definition window_query_now (l : lang) := if fix_k2_applied then window_query_fix l else window_query l.
@@ -185,12 +189,12 @@ Definition chk_eng_union (a b : list Z) (obs : list Z) : bool :=
     values in scan order; the planner's output types *)
 Definition agg_rows (vals : list (value * value)) : list row := map (fun p => [fst p; snd p]) vals.
 Definition chk_eng_agg (f : aggf) (vals : list (value * value)) (obs : option (list row)) : bool :=
-  ores_eqb (simple_agg2 Checked [f] [planner_type f] (scan_chunks (agg_rows vals))) obs.
+  ores_eqb (simple_agg2 Checked [f] [planner_type_now f] (scan_chunks (agg_rows vals))) obs.
 Definition chk_eng_group_agg (f : aggf) (vals : list (value * value)) (obs : option (list row)) : bool :=
-  ores_eqb (hash_agg2 Checked [0%nat] [f] [planner_type f] (scan_chunks (agg_rows vals))) obs.
+  ores_eqb (hash_agg2 Checked [0%nat] [f] [planner_type_now f] (scan_chunks (agg_rows vals))) obs.
 Definition show_eng_agg (f : aggf) (vals : list (value * value)) :=
-  (simple_agg2 Checked [f] [planner_type f] (scan_chunks (agg_rows vals)),
-   hash_agg2 Checked [0%nat] [f] [planner_type f] (scan_chunks (agg_rows vals))).
+  (simple_agg2 Checked [f] [planner_type_now f] (scan_chunks (agg_rows vals)),
+   hash_agg2 Checked [0%nat] [f] [planner_type_now f] (scan_chunks (agg_rows vals))).
 (** the aggregate without the typed vector (what the functions compute) *)
 Definition agg_untyped (f : aggf) (vals : list (value * value)) : res (list row) :=
   simple_agg2 Checked [f] [TAny] (scan_chunks (agg_rows vals)).
